@@ -340,6 +340,11 @@ func appendSnapshotVars(b []byte, s *slip.Scope) []byte {
 	for _, p := range slip.AllPackages() {
 		p.EachVarVal(func(name string, vv *slip.VarVal) {
 			if p == vv.Pkg && !vv.Const && !excludeVars[name] {
+				if vv.Export && vv.Value() == slip.Unbound {
+					// Just the entry for an exported name, made again by
+					// the :export of the defpackage.
+					return
+				}
 				va = append(va, vv)
 			}
 		})
